@@ -37,8 +37,10 @@ func init() {
 
 type dfault struct {
 	at             int // index of the faulty write, -1 = none
-	kind           int // 0 = error without writing, 1 = torn then die, 2 = complete then die
+	kind           int // 0 = error without writing, 1 = torn then die, 2 = complete then die, 3 = cut at a byte offset then die
 	kh, kc, kk, kr bool
+	frac           float64 // kind 3: where the file is cut, as a fraction of its length
+	cutAt, cutLen  int     // kind 3: what happened
 }
 
 type lfs struct {
@@ -85,6 +87,21 @@ func (l lfs) WriteFile(name string, content []byte) error {
 	if l.flt.at == idx && l.flt.kind == 1 {
 		content = keepBlocks(content, l.flt.kh, l.flt.kc, l.flt.kk, l.flt.kr)
 	}
+	if l.flt.at == idx && l.flt.kind == 3 {
+		// the write stops at an arbitrary byte offset; which parts survive is read off the truncated bytes with the standard
+		// library's PEM decoder (not with gopki) and handed to the model as the set of blocks kept
+		l.flt.cutLen = len(content)
+		l.flt.cutAt = int(l.flt.frac * float64(len(content)+1))
+		if l.flt.cutAt > len(content) {
+			l.flt.cutAt = len(content)
+		}
+		content = content[:l.flt.cutAt]
+		l.flt.kh = bytes.HasPrefix(content, []byte("#HASH:")) && bytes.IndexByte(content, '\n') >= 0
+		bl := pemBlocks(content)
+		_, l.flt.kc = bl["CERTIFICATE"]
+		_, l.flt.kk = bl["PRIVATE KEY"]
+		_, l.flt.kr = bl["CERTIFICATE REQUEST"]
+	}
 	l.m[name] = &fstest.MapFile{Data: content, Mode: 0644, ModTime: dtm(*l.clock)}
 	*l.writes = append(*l.writes, name)
 	if l.flt.at == idx {
@@ -100,6 +117,7 @@ type dent struct {
 	present   bool
 	krsa      bool // configured key algorithm is RSA
 	srsa      bool // configured signature algorithm needs an RSA signer
+	prof      bool // references the shared profile profiles/shared.yaml
 	vstyle    int  // validity block style, constant over the history
 	layout    int  // 0: e<i>.yaml, 1: sub/e<i>.yml, 2: deep/er/e<i>.json-free yaml with explicit alias in x<i>.yaml
 }
@@ -123,8 +141,18 @@ func (e dent) cfgPath(i int) string {
 }
 func (e dent) pemPath(i int) string { return e.stem(i) + ".pem" }
 
+// version of the shared profile: it contributes one non-optional extension 1.2.4.<profVersion> to every entity that references it
+var profVersion int
+
+func profileYaml() string {
+	return fmt.Sprintf("version: 1\nname: shared\nextensions:\n  - custom:\n      oid: 1.2.4.%d\n      raw: \"!empty\"\n", profVersion)
+}
+
 func (e dent) yaml(i int) string {
 	s := fmt.Sprintf("version: 1\nsubject: CN=e%d v%d\n", i, e.subj)
+	if e.prof {
+		s += "profile: shared\n"
+	}
 	if e.layout == 2 {
 		s += fmt.Sprintf("alias: e%d\n", i)
 	}
@@ -166,7 +194,11 @@ func (e dent) coq() string {
 	if e.issuer >= 0 {
 		iss = fmt.Sprintf("(Some %d)", e.issuer)
 	}
-	return fmt.Sprintf("(mkCfg %s %d %d 0 %s %s true true true)", iss, e.subj, e.vis, ktn(e.krsa), ktn(e.srsa))
+	vis := e.vis
+	if e.prof {
+		vis += 1000 * (profVersion + 1) // the visible content includes what the profile contributes
+	}
+	return fmt.Sprintf("(mkCfg %s %d %d 0 %s %s true true true)", iss, e.subj, vis, ktn(e.krsa), ktn(e.srsa))
 }
 
 type fileView struct {
@@ -180,7 +212,11 @@ type fileView struct {
 }
 
 func viewOf(data []byte) fileView {
-	v := fileView{hash: bytes.Contains(data, []byte("#HASH:"))}
+	// a hash line counts when the marker is followed by a newline (a line cut before its end carries no hash for the tool)
+	v := fileView{}
+	if ix := bytes.Index(data, []byte("#HASH:")); ix >= 0 && bytes.IndexByte(data[ix:], '\n') >= 0 {
+		v.hash = true
+	}
 	for {
 		var p *pem.Block
 		p, data = pem.Decode(data)
@@ -245,13 +281,19 @@ func observeDir(m fstest.MapFS, prev map[int]fileView, ents []dent) (string, map
 		if v.crt != nil && v.crt.Raw != nil {
 			// does the certificate show the subject and the extension of the entity's current configuration?
 			want := fmt.Sprintf("e%d v%d", i, e.subj)
-			hasExt := false
+			hasExt, hasProf, anyProf := false, false, false
 			for _, x := range v.crt.Extensions {
 				if x.Id.String() == fmt.Sprintf("1.2.3.%d", e.vis) {
 					hasExt = true
 				}
+				if strings.HasPrefix(x.Id.String(), "1.2.4.") {
+					anyProf = true
+					if x.Id.String() == fmt.Sprintf("1.2.4.%d", profVersion) {
+						hasProf = true
+					}
+				}
 			}
-			refl = v.crt.Subject.CommonName == want && hasExt
+			refl = v.crt.Subject.CommonName == want && hasExt && ((e.prof && hasProf) || (!e.prof && !anyProf))
 		}
 		if v.crt != nil && v.key != nil && v.crt.PublicKey != nil {
 			if pk, ok := v.crt.PublicKey.(pubEq); ok {
@@ -331,6 +373,7 @@ func oneHistory(h int, faults bool) {
 			ents[i].issuer = rng.Intn(i)
 		}
 		ents[i].krsa = rng.Intn(6) == 0
+		ents[i].prof = rng.Intn(3) == 0
 		ents[i].vstyle = rng.Intn(5)
 		ents[i].layout = rng.Intn(3)
 	}
@@ -346,6 +389,8 @@ func oneHistory(h int, faults bool) {
 	}
 	order = map[int]int{}
 	nreq, nuser := 0, 0
+	profVersion = 0
+	m["profiles/shared.yaml"] = &fstest.MapFile{Data: []byte(profileYaml()), Mode: 0644, ModTime: dtm(0)}
 	var ops, obs []string
 	prev := map[int]fileView{}
 	putcfg := func(i int) {
@@ -386,10 +431,11 @@ func oneHistory(h int, faults bool) {
 			res := "ok"
 			flt = dfault{at: -1}
 			fs_ := "None"
-			if faults && rng.Intn(100) < 45 {
-				flt = dfault{at: rng.Intn(ne), kind: rng.Intn(3), kh: rng.Intn(2) == 1, kc: rng.Intn(2) == 1, kk: rng.Intn(2) == 1, kr: rng.Intn(2) == 1}
-				oc := []string{"FailNoWrite", fmt.Sprintf("(Torn (mkKeep %s %s %s %s))", bs(flt.kh), bs(flt.kc), bs(flt.kk), bs(flt.kr)), "DoneThenDie"}[flt.kind]
-				fs_ = fmt.Sprintf("(Some (%d, %s))", flt.at, oc)
+			faulty := faults && rng.Intn(100) < 45
+			faultAt := -1
+			if faulty {
+				flt = dfault{at: rng.Intn(ne), kind: rng.Intn(4), kh: rng.Intn(2) == 1, kc: rng.Intn(2) == 1, kk: rng.Intn(2) == 1, kr: rng.Intn(2) == 1, frac: rng.Float64()}
+				faultAt = flt.at
 			}
 			before := snapshotNonPem(m)
 			func() {
@@ -441,9 +487,17 @@ func oneHistory(h int, faults bool) {
 					fmt.Fprintf(out, "SELFFAIL dirrun-%d-%d step %d: file %q was created by the run\n", seed, h, s, k)
 				}
 			}
+			if faulty {
+				// (for a cut at a byte offset the kept blocks are known only now; when the faulty write was never reached they do not matter)
+				oc := []string{"FailNoWrite", "", "DoneThenDie", ""}[flt.kind]
+				if flt.kind == 1 || flt.kind == 3 {
+					oc = fmt.Sprintf("(Torn (mkKeep %s %s %s %s))", bs(flt.kh), bs(flt.kc), bs(flt.kk), bs(flt.kr))
+				}
+				fs_ = fmt.Sprintf("(Some (%d, %s))", faultAt, oc)
+			}
 			ops = append(ops, fmt.Sprintf("R (mkStrat %s %s %s %s %s) %s", bs(strat&1 != 0), bs(strat&2 != 0), bs(strat&4 != 0), bs(strat&8 != 0), bs(strat&16 != 0), fs_))
 			record(res, w)
-			lastStrat, lastOk = strat, res == "ok" && flt.at == -1
+			lastStrat, lastOk = strat, res == "ok" && !faulty
 			continue
 		case r < 52:
 			ents[i].subj++
@@ -460,13 +514,38 @@ func oneHistory(h int, faults bool) {
 			}
 			putcfg(i)
 			ops = append(ops, fmt.Sprintf("U (OpEditCfg %d %s)", i, ents[i].coq()))
-		case r < 72:
+		case r < 69:
 			putcfg(i)
 			ops = append(ops, fmt.Sprintf("U (OpTouchCfg %d)", i))
-		case r < 80:
+		case r < 72 && rng.Intn(2) == 0: // the entity starts or stops referencing the shared profile (an edit of its own file)
+			ents[i].prof = !ents[i].prof
+			putcfg(i)
+			ops = append(ops, fmt.Sprintf("U (OpEditCfg %d %s)", i, ents[i].coq()))
+		case r < 72: // the shared profile is edited: one file changes, every entity that references it has a new effective configuration
+			clock++
+			profVersion++
+			m["profiles/shared.yaml"] = &fstest.MapFile{Data: []byte(profileYaml()), Mode: 0644, ModTime: dtm(clock)}
+			var l []string
+			for j := range ents {
+				if ents[j].present && ents[j].prof {
+					l = append(l, fmt.Sprintf("(%d, %s)", j, ents[j].coq()))
+				}
+			}
+			ops = append(ops, "U (OpEditProfile ["+strings.Join(l, "; ")+"])")
+			record("-", nil)
+			lastOk = false
+			continue
+		case r < 79:
 			clock++
 			delete(m, ents[i].pemPath(i))
 			ops = append(ops, fmt.Sprintf("U (OpDeleteFile %d)", i))
+		case r < 80: // the entity is removed altogether (its subordinates now name an issuer nobody defines)
+			clock++
+			delete(m, ents[i].pemPath(i))
+			delete(m, ents[i].cfgPath(i))
+			ents[i].present = false
+			delete(prev, i)
+			ops = append(ops, fmt.Sprintf("U (OpRemove %d)", i))
 		case r < 85:
 			clock++
 			nreq++
